@@ -223,10 +223,12 @@ const (
 	sSleep2s         // advance virtual time past the deadlines
 	sReleaseHolder   // a holder releases
 	sReleaseSpurious // Release with no holder (only when nobody holds)
+	sAcquirePair     // two cancellable Acquires started together, racing for the same slot
+	sCancelAll       // cancel every pending cancellable acquirer
 	nSteps
 )
 
-var stepNames = []string{"Acquire(bg)", "Acquire(cancellable)", "Acquire(done ctx)", "Acquire(1s deadline)", "cancel oldest", "sleep 2s", "holder Release", "spurious Release"}
+var stepNames = []string{"Acquire(bg)", "Acquire(cancellable)", "Acquire(done ctx)", "Acquire(1s deadline)", "cancel oldest", "sleep 2s", "holder Release", "spurious Release", "2x Acquire(cancellable) at once", "cancel all"}
 
 type acq struct {
 	id       int
@@ -302,6 +304,15 @@ func runSema(sc semaScenario) (what string, checks int) {
 			switch st {
 			case sAcquireBg, sAcquireCancellable, sAcquireDone, sAcquireDeadline:
 				start(st)
+			case sAcquirePair:
+				start(sAcquireCancellable)
+				start(sAcquireCancellable)
+			case sCancelAll:
+				for _, a := range all {
+					if a.kind == sAcquireCancellable && a.ctx.Err() == nil {
+						a.cancel()
+					}
+				}
 			case sCancelOldest:
 				for _, a := range all {
 					if a.kind == sAcquireCancellable && !a.returned.Load() && a.ctx.Err() == nil {
@@ -389,7 +400,7 @@ func TestSemaBubble(t *testing.T) {
 		return
 	}
 	set, idle := guard(r, "sema_bubble")
-	maxL := r.Pick(5, 6)
+	maxL := r.Pick(4, 5)
 	var n int64
 	for capN := uint(0); capN <= 3; capN++ {
 		for l := 1; l <= maxL; l++ {
@@ -424,6 +435,73 @@ func TestSemaBubble(t *testing.T) {
 			}
 		}
 	}
+	// simultaneous arrival: k acquirers released by one close() race for the free slots; exactly min(cap,k)
+	// may hold, the others must be blocked, and after their contexts are cancelled all must have returned
+	var simul, contended int64
+	for rep := 0; rep < r.Pick(600, 6000) && !r.TooMany(); rep++ {
+		capN := uint(1 + rep%3)
+		k := int(capN) + 1 + rep%4
+		sc := map[string]any{"capacity": capN, "simultaneous_acquirers": k, "rep": rep}
+		set(sc)
+		what := ""
+		dl := bubble(func() {
+			sem := syncutil.NewChanSemaphore(capN)
+			ctx, cancel := context.WithCancel(context.Background())
+			defer cancel()
+			// a spin barrier: all k goroutines leave it within nanoseconds of each other
+			var ready atomic.Int32
+			errs := make([]error, k)
+			ret := make([]atomic.Bool, k)
+			for i := 0; i < k; i++ {
+				go func() {
+					ready.Add(1)
+					for ready.Load() < int32(k) {
+					}
+					errs[i] = sem.Acquire(ctx)
+					ret[i].Store(true)
+				}()
+			}
+			synctest.Wait()
+			held := 0
+			for i := range ret {
+				if ret[i].Load() {
+					if errs[i] != nil {
+						what = fmt.Sprintf("Acquire #%d returned %v before its context was done", i, errs[i])
+					}
+					held++
+				}
+			}
+			if held != int(capN) && what == "" {
+				what = fmt.Sprintf("%d of %d simultaneous Acquires hold a semaphore of capacity %d, want %d", held, k, capN, capN)
+			}
+			cancel()
+			synctest.Wait()
+			for i := range ret {
+				if !ret[i].Load() && what == "" {
+					what = fmt.Sprintf("Acquire #%d is still blocked although its context is done and no slot is free (capacity %d, %d simultaneous acquirers)", i, capN, k)
+				} else if ret[i].Load() && errs[i] != nil && errs[i] != ctx.Err() && what == "" {
+					what = fmt.Sprintf("Acquire #%d returned %v, the context error is %v", i, errs[i], ctx.Err())
+				}
+			}
+			// unblock whatever is still stuck so that the bubble can end
+			for i := 0; i < k; i++ {
+				sem.Release()
+			}
+			synctest.Wait()
+		})
+		idle()
+		if dl != "" && what == "" {
+			what = "bubble deadlock: " + dl
+		}
+		simul++
+		contended += int64(k)
+		r.Eval(int64(k))
+		if what != "" {
+			r.Violation(fmt.Sprintf("sema-simul:%d:%d:%d", capN, k, rep), fmt.Sprintf("ChanSemaphore(%d) with %d Acquires released at the same instant: %s", capN, k, what), sc)
+		}
+	}
+	n += simul
+	r.Count("simultaneous_arrival_scenarios", simul)
 	r.NontrivialN(n)
 	r.Count("scenarios", n)
 	r.Exhaustive(fmt.Sprintf("capacity 0..3 x every script of 1..%d steps over %v, judged at bubble quiescence after every step", maxL, stepNames))
